@@ -1,0 +1,37 @@
+//go:build verif
+
+package jerr
+
+// Verification hooks (build tag "verif"): read-only accessors.
+// Nothing here is compiled into a normal build.
+
+// VerifFile returns the name of the file the error points into.
+func (e *JApiError) VerifFile() string {
+	if e.file == nil {
+		return ""
+	}
+	return e.file.Name()
+}
+
+// VerifFileSize returns the size of the content of the file the error points into.
+func (e *JApiError) VerifFileSize() int {
+	if e.file == nil {
+		return -1
+	}
+	return len(e.file.Content())
+}
+
+// VerifTraceItem is an entry of the include trace.
+type VerifTraceItem struct {
+	Path string
+	Line uint
+}
+
+// VerifTrace returns the include trace (innermost first, without the error's own file).
+func (e *JApiError) VerifTrace() []VerifTraceItem {
+	r := make([]VerifTraceItem, 0, len(e.includeTrace))
+	for _, i := range e.includeTrace {
+		r = append(r, VerifTraceItem{Path: i.path, Line: uint(i.atLine)})
+	}
+	return r
+}
